@@ -637,3 +637,49 @@ def handler_prog(rng):
     L += ["csrrw t0, uscratch, t0", "sw t1, 0(t0)", "addi t1, t1, 1", "lw t1, 0(t0)", "csrrw t0, uscratch, t0"][:rng.randrange(0, 6)]
     L.append(rng.choice(["uret", "uret", "ret", "j %s" % h]))
     return "\n".join(L) + "\n"
+
+
+# ---------------------------------------------------------------------------------------------
+# G7: shapes whose analysis goes through hash-ordered sets (C10): several entry labels, several returns,
+# shared tails, first uses on both arms of a branch, several files
+# ---------------------------------------------------------------------------------------------
+def det_prog(rng):
+    """returns (files, base)"""
+    nf = rng.randrange(1, 4)
+    main = ["main:", "li a0, %d" % rng.randrange(0, 9)]
+    funcs = []
+    for i in range(nf):
+        names = ["f%d" % i] + (["g%d" % i] if rng.random() < 0.5 else []) + (["h%d" % i] if rng.random() < 0.2 else [])
+        for nm in rng.sample(names, len(names)) if rng.random() < 0.7 else names[:1]:
+            main.append("jal %s" % nm)
+            if rng.random() < 0.5:         # temporaries read after the call on both arms of a branch: two first uses on one level
+                t = rng.choice(["t0", "t1", "t2"])
+                main += ["beqz a0, m%d_%s" % (i, nm), "addi a1, %s, 1" % t, "j e%d_%s" % (i, nm), "m%d_%s:" % (i, nm),
+                         "addi a2, %s, 2" % t, "e%d_%s:" % (i, nm), "add a0, a1, a2"]
+        body = [n + ":" for n in names]
+        if rng.random() < 0.6:
+            s = rng.choice(["s1", "s2", "s11"])
+            body += ["li %s, %d" % (s, i), "add a0, a0, %s" % s]      # callee-saved register overwritten
+        nret = rng.randrange(1, 4)
+        for r in range(nret - 1):
+            body += ["%s a0, r%d_%d" % (rng.choice(["beqz", "bnez", "bltz"]), i, r)]
+            if rng.random() < 0.4:
+                body += ["li s3, 1", "add a0, a0, s3"]
+        body += ["addi a0, a0, 1", "ret"]
+        for r in range(nret - 1):
+            body += ["r%d_%d:" % (i, r)]
+            if rng.random() < 0.5:
+                body += ["li s4, 2", "add a0, a0, s4"]
+            body += ["ret"] if rng.random() < 0.8 else ["j f%d_tail" % i]
+        if any(l == "j f%d_tail" % i for l in body):
+            body += ["f%d_tail:" % i, "addi a0, a0, 3", "ret"]
+        if rng.random() < 0.25 and i > 0:       # shared tail: jump into the previous function's body
+            body.insert(len(names) + 0, "bgtz a0, f%d" % (i - 1))
+        funcs.append(body)
+    main += ["li a7, 10", "ecall"]
+    if rng.random() < 0.5 or nf == 0:
+        return [("a.s", "\n".join(main + [l for f in funcs for l in f]) + "\n")], "a.s"
+    files = [("a.s", "\n".join(main) + "\n" + "".join('.include "f%d.s"\n' % i for i in range(nf)))]
+    for i, f in enumerate(funcs):
+        files.append(("f%d.s" % i, "\n".join(f) + "\n"))
+    return files, "a.s"
